@@ -734,7 +734,7 @@ theorem intText_of_nf (sg ds : List Nat) (hsg : sg = [] ∨ sg = [45]) (hne : ds
     rw [he, hd]; rfl
 
 open Gql.Lexer Gql.Lexer.Spec in
-theorem finS_some {k' k : Kind} {l r' lex rest : List Nat} (h : finS k' l r' = some (k, lex, rest)) :
+theorem finS_some_nf {k' k : Kind} {l r' lex rest : List Nat} (h : finS k' l r' = some (k, lex, rest)) :
     k = k' ∧ lex = l := by
   unfold finS at h
   split at h
@@ -764,12 +764,12 @@ theorem numberToken_nf {cs : List Nat} {k : Gql.Lexer.Kind} {lex rest : List Nat
         obtain ⟨ep, r2⟩ := q2
         obtain ⟨eneg, ed, hep, _⟩ := exponentPart_nf he
         simp only [he] at h
-        obtain ⟨rfl, rfl⟩ := finS_some h
+        obtain ⟨rfl, rfl⟩ := finS_some_nf h
         exact ⟨⟨sg, ds, fp, fr, ep, eneg, ed, by simp [List.append_assoc], hsg, hne, hd, hfr, hep⟩,
           fun hk => by cases hk⟩
       | none =>
         simp only [he] at h
-        obtain ⟨rfl, rfl⟩ := finS_some h
+        obtain ⟨rfl, rfl⟩ := finS_some_nf h
         exact ⟨⟨sg, ds, fp, fr, [], false, [], by simp [List.append_assoc], hsg, hne, hd, hfr,
           Or.inl ⟨rfl, rfl, rfl⟩⟩, fun hk => by cases hk⟩
     | none =>
@@ -779,12 +779,12 @@ theorem numberToken_nf {cs : List Nat} {k : Gql.Lexer.Kind} {lex rest : List Nat
         obtain ⟨ep, r2⟩ := q2
         obtain ⟨eneg, ed, hep, _⟩ := exponentPart_nf he
         simp only [he] at h
-        obtain ⟨rfl, rfl⟩ := finS_some h
+        obtain ⟨rfl, rfl⟩ := finS_some_nf h
         exact ⟨⟨sg, ds, [], [], ep, eneg, ed, by simp [List.append_assoc], hsg, hne, hd, Or.inl ⟨rfl, rfl⟩, hep⟩,
           fun hk => by cases hk⟩
       | none =>
         simp only [he] at h
-        obtain ⟨rfl, rfl⟩ := finS_some h
+        obtain ⟨rfl, rfl⟩ := finS_some_nf h
         exact ⟨⟨sg, ds, [], [], [], false, [], by simp, hsg, hne, hd, Or.inl ⟨rfl, rfl⟩, Or.inl ⟨rfl, rfl, rfl⟩⟩,
           fun _ => intText_of_nf sg ds hsg hne hd⟩
 
